@@ -204,6 +204,55 @@ def probes_side(tier, seed, only=None):
     return out
 
 
+def two_owners_side(tier, seed):
+    """the run-time clause of C14 ("no sequence of safe public calls produces two owners of one element"): the consuming
+    kinds are driven by the real crate on the C08 case stream under the deterministic scheduler; the ownership ledger of
+    every recorded trace must never show an element moved out twice, or moved out and destroyed.
+    Returns dict(problems, cases, nontrivial, violations=[(case, lines, why, triggers)])"""
+    import importlib.machinery, importlib.util
+    res = dict(problems=[], cases=0, nontrivial=0, violations=[])
+    try:
+        loader = importlib.machinery.SourceFileLoader("orx_check", os.path.join(VERIF, "check"))
+        spec = importlib.util.spec_from_loader("orx_check", loader)
+        chk = importlib.util.module_from_spec(spec)
+        loader.exec_module(chk)
+        import streams
+        from monitors import Trace, ledger
+        ok, log = runner.build_harness("release")
+        if not ok:
+            res["problems"].append("the harness (and the crate, hooks on) does not build: " + log[-500:])
+            return res
+        cases = [c for c in streams.stream_for("C08", tier, seed) if c.consuming() and c.adapt == "none"]
+        seen, uniq = set(), []
+        for c in cases:
+            if c.id not in seen:
+                seen.add(c.id)
+                uniq.append(c)
+        workdir = os.path.join(runner.WORK, "C14")
+        subprocess.run(["rm", "-rf", workdir])
+        impl, _model = chk.execute("C14", uniq, workdir, ["release"])
+        for c in uniq:
+            il = impl["release"].get(c.id)
+            if il is None:
+                res["problems"].append("case %s produced no trace" % c.id)
+                continue
+            res["cases"] += 1
+            tr = Trace(c, il)
+            if tr.aborted or tr.hang:
+                continue
+            moved, dropped, produced = ledger(tr)
+            if moved or dropped:
+                res["nontrivial"] += 1
+            for v in sorted(set(moved) | set(dropped)):
+                m, d = moved.get(v, 0), dropped.get(v, 0)
+                if m + d > 1:
+                    res["violations"].append((c, il, "two owners of element %d: moved out to a caller %d time(s), destroyed by the iterator %d time(s)" % (v, m, d), chk.triggers(c, il)))
+                    break
+    except Exception as e:  # the machinery itself
+        res["problems"].append("two-owners run failed: %r" % (e,))
+    return res
+
+
 def load_known():
     p = os.path.join(VERIF, "known_findings.json")
     try:
@@ -234,11 +283,13 @@ def main(tier="quick", seed=1):
         ties.append("extractor: " + (ex.stdout.strip().split("\n")[-1] if ex.stdout.strip() else "exit %d" % ex.returncode))
 
     # b. + c. concurrently (lake and cargo do not share anything)
-    with concurrent.futures.ThreadPoolExecutor(max_workers=2) as pool:
+    with concurrent.futures.ThreadPoolExecutor(max_workers=3) as pool:
         f_lean = pool.submit(lean_side)
         f_probes = pool.submit(probes_side, tier, seed, only)
+        f_two = pool.submit(two_owners_side, tier, seed) if only is None else None
         lean = f_lean.result()
         pr = f_probes.result()
+        two = f_two.result() if f_two is not None else dict(problems=[], cases=0, nontrivial=0, violations=[])
     if ex.returncode != 0 and lean["ok"]:
         # the old generated file is still there: the theorems say nothing about the current tree
         lean["stale"] = True
@@ -246,6 +297,8 @@ def main(tier="quick", seed=1):
         ties.append("lean: " + b)
     for b in pr["problems"]:
         ties.append("probes: " + b)
+    for b in two["problems"]:
+        ties.append("two-owners: " + b)
 
     # d. compare
     known = load_known()
@@ -309,8 +362,26 @@ def main(tier="quick", seed=1):
         row["status"] = status
         rows.append(row)
 
+    # run-time clause: two owners
+    two_known = {}
+    for (c, il, why, trig) in two["violations"]:
+        k = next((k for k in known if k.get("trigger") in trig), None)
+        if k is not None:
+            two_known.setdefault(k["id"], (k, []))[1].append((c, why))
+        else:
+            os.makedirs(os.path.join(VERIF, "replays"), exist_ok=True)
+            rp = os.path.join(VERIF, "replays", "C14-violation.txt")
+            if not any(v[0] == rp for v in violations):
+                with open(rp, "w") as f:
+                    f.write("# property C14\n# %s\n# replay: the case below on the harness (./check C08 --replay %s)\n" % (why, rp))
+                    f.write(c.text())
+                    f.write("\n# --- trace recorded from the real crate\n" + "\n".join("# " + l for l in il) + "\n")
+                violations.append((rp, c.id, why))
+
     # decide
     out_lines = []
+    for kid, (k, hits) in sorted(two_known.items()):
+        out_lines.append("KNOWN-FINDING: property=%s %s [%s] e.g. case %s: %s" % (PID, k["what"], kid, hits[0][0].id, hits[0][1]))
     for kid, (k, probes) in sorted(knowns.items()):
         out_lines.append("KNOWN-FINDING: property=%s %s [%s] probes that compile although they must be rejected: %s" % (
             PID, k["what"], kid, ", ".join(sorted(probes))))
@@ -381,6 +452,8 @@ def main(tier="quick", seed=1):
             "accepted": sum(1 for r in rows if r["verdict"] == "accept"), "rejected": sum(1 for r in rows if r["verdict"] == "reject"),
             "unexpected": [r for r in rows if not r["status"].startswith("as-expected")],
             "known_findings_hit": sorted(knowns), "findings_not_reproduced": sorted(set(f for f, _ in fixed_findings)),
+            "two_owner_cases_run": two["cases"], "two_owner_cases_nontrivial": two["nontrivial"],
+            "two_owner_hits_known": {k: len(v[1]) for k, v in two_known.items()},
             "tie_breaks": len(ties), "tie_break_reasons": [t[:300] for t in ties[:10]],
             "samples": pick, "all_probes": {r["probe"]: r["verdict"] for r in rows},
             "exhaustive": only is None and not pr["problems"],
